@@ -18,6 +18,7 @@ BODIES = {
     "twice": "<{|i, again| yield i if i < %d; recur(i + 1) if again; again := true}>" % LIM,
     "nested": "<{|n| row := <{|k| yield k if k <= n + 2; recur(k + 1)}>.new(1); yield n * 100 + row.next * 10 + row.next if n <= %d; recur(n + 1)}>" % LIM,
     "raisingrecur": "<{|i| yield i if i < %d; recur(i + 1) if i != 1; recur(1 / 0) if i == 1}>" % (LIM + 2),
+    "yieldsnil": "<{|i| yield (nil if i == 1 else i) if i < %d; recur(i + 1)}>" % LIM,
     "twoyields": "<{|i| yield i; yield nil if i != %d; recur(i + 1)}>" % LIM,
 }
 
@@ -30,6 +31,10 @@ def args(body, n):
     return str(n)
 
 
+def num(x):
+    return "nil" if x == -999 else str(x)
+
+
 def program(case):
     body = case["body"]
     lines = [f"g := {BODIES[body]}", f"x := g.new({args(body, 0)})"]
@@ -39,7 +44,7 @@ def program(case):
         ERR = "out:[nil, <err ZeroDivisionErr: cannot be divided by 0>]"
         if op == "next":
             lines.append(f"say({v}.try.next.A)")
-            expect.append((f"{v}.next", f"out:[{r[1]}, nil]" if r[0] == "val" else ERR if r[0] == "err" else "out:[nil, <err StopIterErr: iter stopped>]"))
+            expect.append((f"{v}.next", f"out:[{num(r[1])}, nil]" if r[0] == "val" else ERR if r[0] == "err" else "out:[nil, <err StopIterErr: iter stopped>]"))
         elif body == "raisingrecur" and op in ("A", "list", "reduce"):     # a walk may raise: observed through try
             call = {"A": f"{v}.A", "list": f"{v}@{{|e| e * 10}}", "reduce": f"{v}$(100)+"}[op]
             lines.append(f"say(nil.try.{{|u| {call}}}.A)")
@@ -47,7 +52,7 @@ def program(case):
             expect.append((f"{v}{'.A' if op == 'A' else '@' if op == 'list' else '$'}", "out:" + val))
         elif op == "A":
             lines.append(f"say({v}.A)")
-            expect.append((f"{v}.A", "out:[" + ", ".join(map(str, r[1])) + "]"))
+            expect.append((f"{v}.A", "out:[" + ", ".join(map(num, r[1])) + "]"))
         elif op == "list":
             lines.append(f"say({v}@{{|e| e * 10}})")
             expect.append((f"{v}@", "out:[" + ", ".join(map(str, r[1])) + "]"))
@@ -107,7 +112,10 @@ def run():
             comparisons += 1
             if got != want:
                 before = "+".join(e["op"] for e in c["log"][:[j for j, e in enumerate(c["log"]) if e["op"] in ("next", "A", "list", "reduce")][k]])
-                ck.reject(f"C14:{c['body']}:{what.split('.')[-1].lstrip('xy')}:after={'+'.join(sorted(set(before.split('+')))) or '-'}",
+                sig = f"C14:{c['body']}:{what.split('.')[-1].lstrip('xy')}:after={'+'.join(sorted(set(before.split('+')))) or '-'}"
+                if c["body"] == "yieldsnil" and what.endswith(".A") and got == want.replace("nil, ", "").replace(", nil", "").replace("[nil]", "[]"):
+                    sig = "C14:A-drops-yielded-nil"          # the only difference: the nil values that next returns are missing from A
+                ck.reject(sig,
                           f"{c['body']}: observation {k + 1} ({what}) is {got[4:]}, the machine gives {want[4:]}",
                           {"src": reqs[i]["src"], "observation": what, "observed": got, "expected": want})
                 break
@@ -117,7 +125,7 @@ def run():
     ck.cov["traces_validated_against_impl"] = len(cases)
     ck.cov["exhaustive"] = not (thorough and len(cases) == 150000)
     ck.cov["rule"] = (f"{len(BODIES)} iterator bodies (guarded counter, unguarded, two-argument state, keyword state, local before yield, implicit argument variables, two "
-                      f"yields, recur / defer recur before a guard with a hole, a flag kept in the iterator's own scope, an iterator built inside the body, an expression given to recur that raises after the yield) x every history of {maxops} operations over variables x, y: next, A, list chain, reduce chain on either; y := g.new(..), "
+                      f"yields, recur / defer recur before a guard with a hole, a flag kept in the iterator's own scope, an iterator built inside the body, an expression given to recur that raises after the yield, a yielded nil) x every history of {maxops} operations over variables x, y: next, A, list chain, reduce chain on either; y := g.new(..), "
                       "y := x.new(..), y := x._iter, y := x; non-trivial = histories mixing next with a derivation or a walk")
     ck.assumptions = ["StopIterErr outcomes of next are observed through x.try.next.A", "built-in iterators (cursor in a Go closure) are outside the statement"]
     return ck.finish()
